@@ -159,6 +159,14 @@ def run_table_case(seed, B):
             after = dict(getattr(impl, LOCKS_ATTR))
             if exc is not None:
                 problems.append('replicated %s raised %s' % (op[0], exc))
+            # monitor: a lock changes hands only through acquire by the new holder of an absent or expired lease
+            for L2 in set(before) | set(after):
+                hb, ha = before.get(L2), after.get(L2)
+                if ha is not None and (hb is None or hb[0] != ha[0]):
+                    legit = op[0] == 'acq' and L2 == L and ha[0] == C and (hb is None or t - hb[1] > U)
+                    if not legit:
+                        problems.append('after %r lock %r went from %r to %r: not an acquire of a free or expired lock by the new holder'
+                                        % (op, L2, hb, ha))
             if op[0] == 'rel':
                 h = before.get(L)
                 if (h is None or h[0] != C) and after != before:
